@@ -9,9 +9,13 @@ from concurrent.futures import ThreadPoolExecutor
 import common, kast
 
 
-def predict(progs, tag="core", shards=8, workers_per=2, timeout=900):
-    """progs: list of {id, ast}. Returns {id: prediction} and TLC stats (states, transitions)."""
+def predict(progs, tag="core", shards=8, workers_per=2, timeout=900, dev=()):
+    """progs: list of {id, ast}. Returns {id: prediction} and TLC stats (states, transitions).
+    dev: names of modelled deviations (known findings) enabled for this batch."""
     common.ensure_dir(common.WORK)
+    for pr in progs:
+        kast.annotate_free(pr["ast"])
+        pr.setdefault("dev", list(dev))
     shards = max(1, min(shards, len(progs) // 20 or 1))
     parts = [progs[i::shards] for i in range(shards)]
     paths = []
@@ -108,6 +112,7 @@ def replay(progs, preds, report, rng, n_layouts=1, contexts=("top", "fn0", "fn3"
     decided = 0
     skipped = {"unspec": 0, "fuel": 0}
     unspec_why = {}
+    used_dev = {}
     for p in progs:
         pr = preds[p["id"]]
         if pr["status"] in ("unspec", "fuel"):
@@ -116,6 +121,8 @@ def replay(progs, preds, report, rng, n_layouts=1, contexts=("top", "fn0", "fn3"
                 unspec_why[pr.get("why", "?")] = unspec_why.get(pr.get("why", "?"), 0) + 1
             continue
         decided += 1
+        for u in pr.get("used", []):
+            used_dev[u] = used_dev.get(u, 0) + 1
         for name, src in variants(p["ast"], rng, n_layouts, contexts):
             jobs.append({"id": "%s|%s" % (p["id"], name), "src": src, "limit_ms": limit_ms})
             index.append((p, pr, name))
@@ -129,4 +136,100 @@ def replay(progs, preds, report, rng, n_layouts=1, contexts=("top", "fn0", "fn3"
                              {"property": report.prop, "program_id": p["id"], "variant": name, "why": why,
                               "source": job["src"], "ast": p["ast"], "predicted": pr, "actual": act})
     return {"decided": decided, "skipped": skipped, "unspec_reasons": unspec_why, "runs": len(jobs),
-            "mismatches": bad}
+            "mismatches": bad, "deviations_used": used_dev}
+
+
+def family_check(prop, tier, seed, families, rule, assumptions, contexts_quick=("top", "fn0", "fn3"),
+                 contexts_thorough=("top", "fn0", "fn3", "fn40"), extra=None, dev=()):
+    """Generic driver for the KotoCore-based checks.
+    families: list of (name, [ast...], n_layouts_quick, n_layouts_thorough, contexts or None)."""
+    import kast
+    rep = common.Report(prop, tier, "model_checking", seed)
+    rng = random.Random(seed * 7919 + 13)
+    progs = []
+    for name, asts, lq, lt, ctx in families:
+        for i, ast in enumerate(asts):
+            progs.append({"id": "%s_%d" % (name, i), "ast": ast, "_fam": name})
+    preds, st = predict([{"id": p["id"], "ast": p["ast"]} for p in progs], tag=prop.lower(), shards=8, dev=dev)
+    stats = {"decided": 0, "runs": 0, "unspec": 0, "fuel": 0, "reasons": {}, "per_family": {}, "dev": {}}
+    for name, asts, lq, lt, ctx in families:
+        fam = [p for p in progs if p["_fam"] == name]
+        if not fam:
+            continue
+        contexts = ctx or (contexts_quick if tier == "quick" else contexts_thorough)
+        s = replay(fam, preds, rep, rng, n_layouts=lq if tier == "quick" else lt, contexts=contexts)
+        stats["decided"] += s["decided"]
+        stats["runs"] += s["runs"]
+        stats["unspec"] += s["skipped"]["unspec"]
+        stats["fuel"] += s["skipped"]["fuel"]
+        for k, v in s["unspec_reasons"].items():
+            stats["reasons"][k] = stats["reasons"].get(k, 0) + v
+        for k, v in s["deviations_used"].items():
+            stats["dev"][k] = stats["dev"].get(k, 0) + v
+        stats["per_family"][name] = {"programs": len(fam), "decided": s["decided"], "runs": s["runs"]}
+    samples = []
+    for name, asts, lq, lt, ctx in families:
+        if asts:
+            samples.append({"family": name, "source": kast.render(asts[0])})
+    rep.coverage = {
+        "states": st["states"], "transitions": st["transitions"],
+        "traces_validated_against_impl": stats["runs"],
+        "samples": samples[:6],
+        "evaluations": stats["runs"],
+        "distinct_nontrivial": stats["decided"],
+        "rule": rule,
+        "programs": len(progs),
+        "discarded_unspecified": stats["unspec"], "discarded_fuel": stats["fuel"],
+        "unspec_reasons": stats["reasons"], "per_family": stats["per_family"],
+        "known_finding_deviations_enabled": list(dev), "programs_decided_by_a_deviation_rule": stats["dev"],
+        "exhaustive": False,
+    }
+    if extra:
+        rep.coverage.update(extra)
+    rep.assumptions = assumptions
+    return rep, preds, progs
+
+
+def generic_replay(prop, path):
+    d = json.load(open(path))
+    res = common.kv("run", [{"id": "replay", "src": d["source"], "limit_ms": 5000}])
+    why = compare(d["predicted"], res[0])
+    print(d["source"])
+    print("predicted:", d["predicted"])
+    print("actual:", {k: res[0].get(k) for k in ("status", "value", "stdout", "err_head")})
+    if why:
+        print("VIOLATION property=%s replay=%s" % (prop, path))
+        return 1
+    return 0
+
+
+def pinned_known_findings(rep, prop):
+    """Run the pinned inputs of every finding recorded for `prop`. For each, TLC computes the ideal
+    prediction and the as-is prediction (finding's deviation rule enabled). The implementation must agree
+    with one of them: ideal => the defect is gone (silent); as-is => KNOWN-FINDING; neither => VIOLATION."""
+    import known_cases, kast
+    n = 0
+    for fid, (p, mk) in known_cases.CASES.items():
+        if p != prop:
+            continue
+        recorded = [f for f in rep.known if f["id"] == fid]
+        if not recorded:
+            continue
+        cases = mk()
+        ideal, _ = predict([{"id": cid, "ast": ast, "dev": []} for cid, ast in cases], tag=prop.lower() + "_pin_i", shards=1)
+        asis, _ = predict([{"id": cid, "ast": ast, "dev": [fid]} for cid, ast in cases], tag=prop.lower() + "_pin_a", shards=1)
+        jobs = [{"id": cid, "src": kast.render(ast), "limit_ms": 5000} for cid, ast in cases]
+        results = common.kv("run", jobs)
+        listed = {c["case"]: c for c in recorded[0].get("inputs", [])}
+        for (cid, ast), job, act in zip(cases, jobs, results):
+            n += 1
+            if compare(ideal[cid], act) is None:
+                continue                       # behaves as specified: nothing to report
+            why_asis = compare(asis[cid], act)
+            if why_asis is None and cid in listed and listed[cid]["source"] == job["src"]:
+                rep.known_finding(fid, "%s: %s" % (cid, recorded[0]["what"]))
+            else:
+                rep.violation("pinned_%s" % cid, {"property": prop, "finding": fid, "case": cid, "source": job["src"],
+                                                  "why": "pinned known-finding input fails differently from what is recorded: %s" % why_asis,
+                                                  "predicted": ideal[cid], "predicted_as_is": asis[cid], "actual": act})
+    return n
